@@ -233,4 +233,7 @@ def samples_api():
               http=("post", "/v1/{name=shelves/*/books/*}:write", "*"), lro=("Book", "Meta"))
     fb.method(s, "StreamBooks", "GetBookRequest", "Book", sstream=True)
     fb.method(s, "Chat", "GetBookRequest", "Book", cstream=True, sstream=True)
+    # a second service on a different host: region tags carry the owning service's host short name
+    a = fb.service("Archive", host="libarchive.googleapis.com")
+    fb.method(a, "GetRecord", "GetBookRequest", "Book", http=("get", "/v1/{name=records/*}"))
     return [fb]
